@@ -68,14 +68,74 @@ FILES = ['data.txt', 'new.txt', '', '.', '..', '../beta/x', '../../outside/secre
 MODES = ['r', 'w', 'a', 'rb', 'wb', 'x', 'r+']
 
 
+def relative_root_then_chdir():
+    """The root is fixed when the storage is built: a relative directory, then a change of working directory to a place
+    that has a directory of the same name, must not redirect later operations."""
+    from labtech.storage import LocalStorage
+    top = Path(tempfile.mkdtemp(prefix='labtech-c18-')).resolve()
+    cwd = os.getcwd()
+    try:
+        (top / 'a').mkdir()
+        (top / 'b' / 'cache' / 'victim').mkdir(parents=True)
+        (top / 'b' / 'cache' / 'victim' / 'data.txt').write_text('other-project\n')
+        os.chdir(top / 'a')
+        st = LocalStorage('cache')
+        with st.file_handle('victim', 'data.txt', mode='w') as fh:
+            fh.write('mine\n')
+        os.chdir(top / 'b')
+        before = snapshot(top / 'b')
+        problems = []
+        try:
+            if not st.exists('victim'):
+                problems.append('exists(victim) is False after chdir although the entry was written')
+            with st.file_handle('victim', 'data.txt', mode='w') as fh:
+                fh.write('mine-2\n')
+            st.delete('victim')
+        except BaseException as ex:   # noqa
+            problems.append(f'{type(ex).__name__}: {ex}')
+        after = snapshot(top / 'b')
+        if before != after:
+            ch = sorted(p for p in set(before) | set(after) if before.get(p) != after.get(p))
+            return f'LocalStorage(\'cache\') built in directory a; after os.chdir(b) its operations changed {ch[:2]} under b/cache (the storage root follows the working directory)'
+        if (top / 'a' / 'cache' / 'victim').exists():
+            return 'after os.chdir the delete of the entry written before did not reach the original storage directory'
+    finally:
+        os.chdir(cwd)
+        shutil.rmtree(top, ignore_errors=True)
+    return None
+
+
 def explore(limit=None):
     n = 0
-    cases = [('exists', k, None, None) for k in KEYS] + [('delete', k, None, None) for k in KEYS] + \
-            [('file_handle', k, f, m) for k in KEYS for f in FILES for m in MODES]
-    for op, key, fn, mode in cases[:limit]:
+    cases = [('exists', k, None, None, None) for k in KEYS] + [('delete', k, None, None, None) for k in KEYS] + \
+            [('file_handle', k, f, m, None) for k in KEYS for f in FILES for m in MODES]
+    # histories on ONE storage object: the keys were listed (find_keys) or validated before, then the entry is used / swapped
+    hk = ['outlink', 'selfref', 'deep', 'alias', 'alpha', 'gamma']
+    for prelude in ('find_keys', 'swap'):
+        cases += [('exists', k, None, None, prelude) for k in hk] + [('delete', k, None, None, prelude) for k in hk] + \
+                 [('file_handle', k, f, m, prelude) for k in hk for f in ('new.txt', 'result', 'data.txt') for m in ('w', 'r', 'a')]
+    why = relative_root_then_chdir()
+    if why:
+        return dict(reproduced=True, level='api', case=['relative root', 'chdir'], summary=why), 1
+    for op, key, fn, mode, prelude in cases[:limit]:
         top = Path(tempfile.mkdtemp(prefix='labtech-c18-'))
         try:
             st, root, outside = build(top)
+            if prelude == 'find_keys':
+                try:
+                    st.find_keys()
+                except BaseException:   # noqa
+                    pass
+            elif prelude == 'swap':
+                (root / 'gamma').mkdir()
+                try:
+                    st.exists('gamma')
+                    with st.file_handle('gamma', 'seen.txt', mode='w') as fh0:
+                        fh0.write('x')
+                except BaseException:   # noqa
+                    pass
+                shutil.rmtree(root / 'gamma')
+                os.symlink(outside / 'dir', root / 'gamma')                 # the validated key now points outside
             before = snapshot(top)
             opened = []
             real_open = io.open
@@ -121,14 +181,14 @@ def explore(limit=None):
                     continue
                 ok = allowed_dir is not None and (p == allowed_dir or (os.path.dirname(p) == allowed_dir) or (op == 'delete' and p.startswith(allowed_dir + os.sep)))
                 if not ok:
-                    return dict(reproduced=True, level='api', case=[op, key, fn, mode], error=err,
-                                summary=f'{op}({key!r}, {fn!r}, {mode!r}) changed {p} which is outside the key directory ({before.get(p, "absent")!s:.40} -> {after.get(p, "absent")!s:.40})'), n
+                    return dict(reproduced=True, level='api', case=[op, key, fn, mode, prelude], error=err,
+                                summary=f'{"after " + prelude + ": " if prelude else ""}{op}({key!r}, {fn!r}, {mode!r}) changed {p} which is outside the key directory ({before.get(p, "absent")!s:.40} -> {after.get(p, "absent")!s:.40})'), n
             for o in opened:
                 rp = os.path.realpath(o)
                 if not (os.path.dirname(os.path.dirname(rp)) == str(root)) or (allowed_dir is not None and os.path.dirname(rp) != allowed_dir):
                     if os.path.dirname(os.path.dirname(rp)) != str(root) or allowed_dir is None or os.path.dirname(rp) != allowed_dir:
-                        return dict(reproduced=True, level='api', case=[op, key, fn, mode], error=err,
-                                    summary=f'{op}({key!r}, {fn!r}, {mode!r}) opened {o} -> {rp}, not a file directly inside the key directory'), n
+                        return dict(reproduced=True, level='api', case=[op, key, fn, mode, prelude], error=err,
+                                    summary=f'{"after " + prelude + ": " if prelude else ""}{op}({key!r}, {fn!r}, {mode!r}) opened {o} -> {rp}, not a file directly inside the key directory'), n
         finally:
             shutil.rmtree(top, ignore_errors=True)
     return dict(reproduced=False, level='api', cases=n), n
